@@ -57,6 +57,9 @@ Step ==
                        ELSE IF blocks[ev.id] # ev.src THEN Flag(bad, "block returned to a different size class than it was taken from", [ev |-> ev, allocated |-> blocks[ev.id]])
                        ELSE bad)
             /\ UNCHANGED <<live, dead, prog>>
+       [] ev.e = "Expect" ->      \* a program-level postcondition evaluated by the driver: id names it, src = 0 iff it held
+            /\ bad' = (IF ev.src # 0 THEN Flag(bad, "postcondition of the program violated", ev) ELSE bad)
+            /\ UNCHANGED <<live, dead, prog, blocks>>
        [] OTHER -> UNCHANGED <<live, dead, bad, prog, blocks>>
 
 Spec == Init /\ [][Step]_vars
